@@ -91,5 +91,17 @@ def run(tier, v):
     tuples = [t for t in space(tier) if t[4] == 0 and len(t[0]) <= (2 if tier == "thorough" else 1)]
     nb, nf = clibind.bind(tuples, lambda t: next(build([t])), v)
     v.subspace("CLI pass (default layout): --check missing/unusable report and edit diff equal the in-process entries", nb)
+    # several statements of different kinds in one file: in-process against the model, and through the CLI
+    import spaces
+    kinds = list(spaces.statement_kind_tuples(3))
+    res = vh.eval_cases([(c[0], c[1]) for c in kinds])
+    for (ci, code, lab), r in zip(kinds, res):
+        v.count()
+        m = gen.compare(code, lab[2], r)
+        if m:
+            v.violation("statement-kinds:%s" % m[0], {"file": code, "detail": m[1], "expected": repr(lab[2])[:300], "got": repr(r)[:300]}, replay_files={"case.rs": code})
+    nb2, nf2 = clibind.bind([k for k in kinds if len(k[2][1][0]) <= (3 if tier == "thorough" else 2)], lambda k: (k[0], k[1], k[2][2], k[2][1]), v)
+    v.subspace("statement-kind tuples: 2..3 statements of 7 kinds (missing, missing+kv, missing+target, message-referenced, key-value-referenced, "
+               "unusable ref first/last) x one directive x style, in-process vs the model and through the CLI", len(kinds) + nb2)
     v.coverage["rule"] = ("one evaluation = one generated structured-mode statement parsed by the real finder and compared with the model "
                           "(missing -> insertion in the gap after the target with `ref = N; `/`ref = N, `; literal -> recognised; other -> unusable)")
